@@ -286,7 +286,7 @@ def build_and_audit(prop, log=None):
         t0 = time.time()
         try:
             from harness import translate
-            tr = translate.run()
+            tr = translate.run(prop)
         except Exception as e:  # translation failure = broken tie, handled by the caller
             tr = {"ok": False, "log": f"translator failed: {e!r}"}
         cache = os.path.join(LEAN, ".lake", f"verif_build_{prop}.json")
